@@ -521,6 +521,13 @@ pub fn run(op: &str, a: &[&str]) -> Option<String> {
                 _ => "bad-op".into(),
             }
         })),
+        "bursts" => Some(guarded(|| {
+            let v: Option<Vec<u64>> = a.iter().map(|s| s.parse::<u64>().ok()).collect();
+            match v {
+                Some(v) if v.len() == 9 => bursts(&v).unwrap_or_else(|| "timing".to_string()),
+                _ => "bad-op".into(),
+            }
+        })),
         _ if op.starts_with("rrl-discarded-") => Some("ok".into()),
         _ => None,
     }
@@ -581,6 +588,66 @@ fn burst(v: &[u64]) -> Option<String> {
         if t_start.elapsed() > Duration::from_millis(500) {
             continue;
         }
+        let (s, sl, d) = counts.iter().fold((0, 0, 0), |a, c| (a.0 + c.0, a.1 + c.1, a.2 + c.2));
+        return Some(if p.slip >= 2 { format!("ok {} {}", s, sl + d) } else { format!("ok {} {} {}", s, sl, d) });
+    }
+    None
+}
+
+/// `bursts`: like `burst`, but `rounds` bursts against ONE server, each on a never-seen /24 source,
+/// i.e. the concurrent requests are the *first* requests of their stream (the bucket does not hold
+/// the stream's key yet). Threads are aligned by a spinning barrier before and after every round
+/// (a plain `Barrier` wakes threads too far apart to exercise the window between "is this my
+/// stream's bucket?" and the update). args: ne nx er window slip size rounds threads per
+fn bursts(v: &[u64]) -> Option<String> {
+    use std::sync::atomic::{AtomicUsize, Ordering};
+    let p = Params { ne: v[0] as u32, nx: v[1] as u32, er: v[2] as u32, window: v[3] as u32, slip: v[4] as usize, v4len: 24, v6len: 56, size: v[5] as usize };
+    let (rounds, threads, per) = (v[6] as usize, v[7] as usize, v[8] as usize);
+    if let Err(e) = p.build() { return Some(e); }
+    let req = encode_request(0x1234, 0, nm("a.example.").wire_repr(), 1, 1, None, Shape::Normal);
+    for _attempt in 0..8 {
+        let cat = catalog();
+        let mut server = Server::new(cat);
+        server.set_rrl_params(Some(p.build().unwrap()));
+        let arrived = AtomicUsize::new(0);
+        let slow = AtomicUsize::new(0);
+        let server = &server;
+        let req = &req;
+        let arrived = &arrived;
+        let slow = &slow;
+        let counts: Vec<(usize, usize, usize)> = std::thread::scope(|s| {
+            let hs: Vec<_> = (0..threads)
+                .map(|_t| {
+                    s.spawn(move || {
+                        let mut buf = vec![0u8; 2048];
+                        let (mut sent, mut slipped, mut dropped) = (0, 0, 0);
+                        let mut phase = 0usize;
+                        let mut wait = |phase: &mut usize| {
+                            *phase += 1;
+                            arrived.fetch_add(1, Ordering::SeqCst);
+                            while arrived.load(Ordering::SeqCst) < *phase * threads { std::hint::spin_loop(); }
+                        };
+                        for r in 0..rounds {
+                            let src = IpAddr::V4(Ipv4Addr::new(10, (r >> 8) as u8, r as u8, 77));
+                            wait(&mut phase);
+                            let t0 = Instant::now();
+                            for _ in 0..per {
+                                match server.handle_message(req, ReceivedInfo::new(src, Transport::Udp), &mut buf) {
+                                    Response::None => dropped += 1,
+                                    Response::Single(_) => { if buf[2] & 0x02 != 0 { slipped += 1 } else { sent += 1 } }
+                                }
+                            }
+                            wait(&mut phase);
+                            // every stream must live well inside one second of its own first response
+                            if t0.elapsed() > Duration::from_millis(400) { slow.fetch_add(1, Ordering::SeqCst); }
+                        }
+                        (sent, slipped, dropped)
+                    })
+                })
+                .collect();
+            hs.into_iter().map(|h| h.join().unwrap()).collect()
+        });
+        if slow.load(Ordering::SeqCst) > 0 { continue; }
         let (s, sl, d) = counts.iter().fold((0, 0, 0), |a, c| (a.0 + c.0, a.1 + c.1, a.2 + c.2));
         return Some(if p.slip >= 2 { format!("ok {} {}", s, sl + d) } else { format!("ok {} {} {}", s, sl, d) });
     }
@@ -968,6 +1035,23 @@ pub fn gen_group(group: &str, rng: &mut Rng, thorough: bool, em: &mut Emitter) {
                 let v = [rate, rate, rate, window, slip, size, pre, threads as u64, per as u64, yields];
                 let case = format!("burst {}", v.iter().map(|x| x.to_string()).collect::<Vec<_>>().join(" "));
                 match burst(&v) {
+                    Some(r) => em.emit(&case, &r),
+                    None => discarded += 1,
+                }
+            }
+            // fresh-stream bursts: the concurrent requests are the first of their stream
+            let n2 = if thorough { 200 } else { 40 };
+            for _ in 0..n2 {
+                let threads = rng.range(2, 16);
+                let per = *rng.pick(&[1usize, 2, 4, 8]);
+                let total = (threads * per) as u64;
+                let slip = *rng.pick(&[0u64, 1, 2]);
+                let cap = match rng.below(5) { 0 => 1, 1 => (total / 3).max(1), 2 => (total / 2).max(1), 3 => total.saturating_sub(1).max(1), _ => 5 };
+                let rounds = *rng.pick(&[50u64, 200, 400]);
+                let size = *rng.pick(&[1u64, 3, 1009, 65537]);
+                let v = [cap, cap, cap, 1, slip, size, rounds, threads as u64, per as u64];
+                let case = format!("bursts {}", v.iter().map(|x| x.to_string()).collect::<Vec<_>>().join(" "));
+                match bursts(&v) {
                     Some(r) => em.emit(&case, &r),
                     None => discarded += 1,
                 }
